@@ -318,10 +318,13 @@ def dispatch(ctx):
 def adapter(ctx):
     """SubscribeStream::poll_next: inner Ready(Some(Publish p)) -> Ready(Some(PublishData::from(p))),
     inner Ready(None) -> Ready(None), inner Pending -> Pending."""
-    b = ctx.body(r"client::stream::SubscribeStream as futures::Stream>::poll_next$")
+    b = ctx.flat(ctx.body(r"client::stream::SubscribeStream as futures::Stream>::poll_next$"))
     out = []
     rows = {}
+    from spec import pinned_to_path
     for path in b.paths(0):
+        if not b.feasible(path):
+            continue
         inner = None
         item = None
         pkt = None
@@ -342,11 +345,12 @@ def adapter(ctx):
             elif adt == RXPACKET:
                 pkt = names[0] if len(names) == 1 else "non-Publish"
         ret = None
-        for bb in path:
-            for st in b.blocks[bb]["stmts"]:
-                if st["k"] == "assign" and st["lhs"]["l"] == 0 and not st["lhs"]["p"]:
-                    e = _symex_rv(b, st["rv"], 0)
-                    ret = _poll_shape(e)
+        with pinned_to_path(b, path):
+            for bb in path:
+                for st in b.blocks[bb]["stmts"]:
+                    if st["k"] == "assign" and st["lhs"]["l"] == 0 and not st["lhs"]["p"]:
+                        e = _symex_rv(b, st["rv"], 0)
+                        ret = _poll_shape(e)
         if b.term(path[-1])["k"] == "return":
             rows.setdefault((inner, item, pkt), set()).add(ret)
     want = {("Ready", "Some", "Publish"): "Ready(Some(from(publish)))", ("Ready", "None", None): "Ready(None)", ("Pending", None, None): "Pending"}
@@ -370,7 +374,7 @@ def _poll_shape(e):
             return "Ready(None)"
         if x[0] == "agg" and x[1] == "Some":
             y = x[2][0]
-            if y[0] == "call" and ("From" in y[1] or "Into" in y[1]) and "PublishData" in y[1]:
+            if (y[0] == "call" and ("From" in y[1] or "Into" in y[1]) and "PublishData" in y[1]) or (y[0] == "agg" and y[1] == "PublishData"):
                 leaves = [l for l in sym_leaves(y) if l[0] == "place"]
                 if any("Publish" in l[3] for l in leaves):
                     return "Ready(Some(from(publish)))"
@@ -956,7 +960,7 @@ def resume_pair(ctx):
     for e in rems:
         arm = arm_of(hp, arms, otherwise, e.bb)
         if arm == "otherwise":
-            arm = _refine_other(hp, e.bb, other_vs)
+            arm = _refine_other(hp, e.bb, other_vs, ctx)
         keyed = e.detail["how"] == "keyed" and any(a[0] == "call" and a[1].endswith("rx_action_id") for a in e.detail["recv"] | set().union(*e.detail["args"]) if True)
         for arm1 in str(arm).split("|"):      # a body shared by `A | B` patterns belongs to both arms
             rem_arms.setdefault(arm1, []).append((e, keyed))
@@ -969,22 +973,33 @@ def resume_pair(ctx):
         else:
             e, keyed = got[0]
             out.append(Inst("RESUME-PAIR", "ack=%s:removes" % c, True, e.site(), "%s removes the stored %s" % (c, rel[c]), ""))
-            # whatever the acknowledgement says: a refused PUBLISH (reason >= 0x80) is finished too
+            # whatever the acknowledgement says: a refused PUBLISH (reason >= 0x80) is finished too. Looked at for this
+            # kind of packet: a test that is decided by the kind alone (a flag of a per-kind table) is no dependence.
+            from spec import variant_specs
+            sp_ = variant_specs(ctx, hp, RXPACKET, sw).get(c)
             dep = []
-            for e_, _k in got:
+            unconditional = False
+
+            def _reason_tests(e_):
+                found = []
                 for (d, s_) in hp.control_dep_closure(e_.inner_bb if not e_.via else e_.bb):
                     t_ = hp.term(d)
                     if t_["k"] != "switch":
                         continue
+                    if sp_ is not None and d in sp_.reach and len([x for x in hp.succ(d) if (d, x) in sp_.edges]) <= 1:
+                        continue
                     si_ = hp.switch_info(d)
                     ats = hp.atoms_deep({"pl": si_["place"]}) if si_ and si_["kind"] == "discr" else (hp.atoms_deep(t_["op"]) if t_["op"].get("k") != "const" else set())
                     if any(a[0] == "field" and a[2] == "reason" for a in ats):
-                        dep.append(hp.site(d))
-            unconditional = any(not [1 for (d, s_) in hp.control_dep_closure(e_.inner_bb if not e_.via else e_.bb)
-                                     if hp.term(d)["k"] == "switch" and any(a[0] == "field" and a[2] == "reason" for a in
-                                         (hp.atoms_deep({"pl": hp.switch_info(d)["place"]}) if hp.switch_info(d) and hp.switch_info(d)["kind"] == "discr"
-                                          else (hp.atoms_deep(hp.term(d)["op"]) if hp.term(d)["op"].get("k") != "const" else set())))]
-                                for e_, _k in got)
+                        found.append(hp.site(d))
+                return found
+            import contextlib
+            with (sp_.pinned() if sp_ is not None else contextlib.nullcontext()):
+                for e_, _k in got:
+                    r_ = _reason_tests(e_)
+                    dep += r_
+                    if not r_:
+                        unconditional = True
             out.append(Inst("RESUME-PAIR", "ack=%s:removal-independent-of-reason" % c, unconditional, e.site(),
                             "removal of the stored %s %s" % (rel[c], "does not depend on the reason code" if unconditional else "depends on the reason code tested at %s" % sorted(set(dep))),
                             "acknowledged is acknowledged: nothing that was answered is re-sent on resume"))
@@ -1113,6 +1128,25 @@ def resume_order(ctx):
     out.append(Inst("RESUME-ORDER", "replay-front-to-back", okw and not muts, run.site(rtb),
                     "replay writes=%d iterators over the queue=%d reordering adaptors=%d awaited=%s inside a loop=%s mutations=%s" % (len(w), len(it), len(rev), comp is not None, len(loop_blocks) > 1, muts or "none"),
                     "every stored packet, original order, bytes unchanged, each write awaited"))
+    # every stored packet is written: inside the loop nothing but the iteration itself decides whether the write happens
+    cond_w = []
+    for (d, s_) in run.control_dep_closure(rtb):
+        if d not in loop_blocks:
+            continue
+        si_ = run.switch_info(d)
+        ats_ = run.atoms({"k": "copy", "pl": si_["place"]}) if si_ and si_["kind"] == "discr" else (run.atoms(run.term(d)["op"]) if run.term(d)["k"] == "switch" and run.term(d)["op"].get("k") != "const" else set())
+        if si_ and si_["kind"] == "discr" and si_.get("adt") == "std::option::Option" and any(a[0] == "call" and re.search(r"Iterator>?::next$", a[1]) for a in ats_):
+            continue
+        # the outcome of the previous write (still pending; failed: the replay stops with that error)
+        if si_ and si_["kind"] == "discr" and si_.get("adt") in ("std::task::Poll", "std::result::Result", "std::ops::ControlFlow") \
+                and any(a[0] == "call" and re.search(r"TxPacketStream(<[^>]*>)?::write", a[1]) for a in ats_):
+            continue
+        if run.term(d)["k"] != "switch":
+            continue
+        cond_w.append(run.site(d))
+    out.append(Inst("RESUME-ORDER", "replay-unconditional", not cond_w, run.site(rtb),
+                    "the replay write %s" % ("is decided by the iteration alone" if not cond_w else "also depends on the test(s) at %s" % sorted(set(cond_w))),
+                    "every stored packet is re-sent (what must not be re-sent was removed from the queue when it was acknowledged)"))
     # R5: what the reset clears (a helper, or the statements themselves inside run)
     cleared = set()
     rs_fn = ctx.facts.find(r"client::context::Context::<[^>]*>::reset_session$")
@@ -1127,7 +1161,12 @@ def resume_order(ctx):
             cleared |= e.detail["fields"]
         rsite = clears[0].site() if clears else run.site(0)
     sess = ctx.facts.adt(SESSION)
-    allf = {f["name"] for f in sess["variants"][0]["fields"] if "VecDeque" in f["ty"]}
+    def _is_queue(ty):
+        if "VecDeque" in ty:
+            return True
+        a_ = ctx.facts.adt(ty)         # a queue wrapped in a private newtype (`struct UnreleasedIds(VecDeque<u16>)`)
+        return a_ is not None and a_["kind"] == "struct" and len(a_["variants"][0]["fields"]) == 1 and "VecDeque" in a_["variants"][0]["fields"][0]["ty"]
+    allf = {f["name"] for f in sess["variants"][0]["fields"] if _is_queue(f["ty"])}
     out.append(Inst("RESUME-ORDER", "reset-clears-all", cleared == allf, rsite, "cleared %s of %s" % (sorted(cleared), sorted(allf)), "abandoned operations fail instead of hanging (their senders are dropped)"))
     # R6
     for nm in ("set_up", "connect", "authorize"):
@@ -1146,4 +1185,34 @@ def buffer_like_mutations(body):
                 at = body.atoms({"l": st["lhs"]["l"], "p": []})
                 if any(a[0] == "field" and a[2] == "retrasmit_queue" for a in at):
                     out.append("%s:%d" % (body.fn["file"], st["line"]))
+    return out
+
+
+# ------------------------------------------------------------------------------------ HANDLE-ERRS
+
+CONTEXT_VERDICTS = ("QuotaExceeded", "MaximumPacketSizeExceeded", "SocketClosed", "HandleClosed", "Disconnected", "InternalError")
+
+
+@rule("HANDLE-ERRS", floor=5)
+def handle_errs(ctx):
+    """A handle operation decides nothing about the connection by itself: the errors it builds on its own are the
+    refusal of a malformed request (codec errors from the builders), ContextExited (its channel ends are gone) and the
+    error that reports a failing reason code of the acknowledgement it received. QuotaExceeded, MaximumPacketSizeExceeded,
+    SocketClosed, HandleClosed and Disconnected are verdicts of the context: they reach the caller only through the
+    operation's own response channel. (An operation that answers from a copy of context state keeps answering from it
+    after the context is gone, instead of failing with ContextExited.)"""
+    out = []
+    for name, body in sorted(ctx.handle_ops().items()):
+        built = []
+        for i in sorted(body.reach):
+            for st in body.blocks[i]["stmts"]:
+                if st["k"] == "assign" and st["rv"]["k"] == "agg" and re.match(r"client::error::(\w+)$", st["rv"].get("adt") or ""):
+                    nm = st["rv"]["adt"].split("::")[-1]
+                    if nm in CONTEXT_VERDICTS:
+                        built.append((nm, "%s:%d" % (body.fn["file"], st["line"])))
+                elif st["k"] == "assign" and st["rv"]["k"] == "agg" and st["rv"].get("adt") == "client::error::MqttError" and st["rv"].get("variant") in CONTEXT_VERDICTS:
+                    built.append((st["rv"]["variant"], "%s:%d" % (body.fn["file"], st["line"])))
+        out.append(Inst("HANDLE-ERRS", "%s:no-context-verdict" % name, not built, built[0][1] if built else body.site(0),
+                        "%s() builds %s by itself" % (name, sorted({b_[0] for b_ in built}) if built else "no error that is the context's to give"),
+                        "QuotaExceeded / MaximumPacketSizeExceeded / SocketClosed / HandleClosed / Disconnected come from the context, through the response channel"))
     return out
